@@ -68,13 +68,19 @@ pub struct H {
     pub script: Vec<u8>,
     pub cur: usize,
     pub has_str: bool,
+    /// more action invocations than this in one execution is a runaway lexer: the action panics
+    /// (which the driver records) instead of looping until memory runs out; 0 = no limit
+    pub limit: usize,
 }
 
 impl H {
     pub fn new(script: &[u8], has_str: bool) -> H {
-        H { log: vec![], script: script.to_vec(), cur: 0, has_str }
+        H { log: vec![], script: script.to_vec(), cur: 0, has_str, limit: 0 }
     }
     pub fn decide(&mut self, rule: usize, default: u8, start: Loc, end: Loc, text: Option<String>, peek: Option<char>) -> u8 {
+        if self.limit != 0 && self.log.len() >= self.limit {
+            panic!("runaway lexer: more than {} action invocations on this input", self.limit);
+        }
         self.log.push(Ev { rule, start, end, text, peek });
         let d = self.script.get(self.cur).copied().unwrap_or(255);
         self.cur += 1;
@@ -278,6 +284,7 @@ pub type Runner = fn(&RunArgs, &Mode) -> Out;
 
 pub fn run_any<L: Handle>(mut l: L, a: &RunArgs, mode: &Mode) -> Out {
     let budget = budget_for(a.input);
+    l.h_state().limit = 3 * budget + 16;
     match mode {
         Mode::Plain => (drive(&mut l, budget, a.probes, a.nones), vec![], vec![]),
         Mode::Clone(k, pattern) => drive_clone(&mut l, budget, *k, pattern),
